@@ -367,8 +367,13 @@ def SNs.erase : SNs → ARule
 
 def SVarDecl.erase (d : SVarDecl) : Cps × List Tok := (d.name, strip d.value)
 
+/-- the mapping `@variables` denotes, as an ordered list: a name declared again takes the place of its first
+declaration with the new value (`cssvariablesdeclaration.py:166-190`) -/
+def aVarsAdd (acc : List (Cps × List Tok)) (v : Cps × List Tok) : List (Cps × List Tok) :=
+  if acc.any (fun e => e.1 = v.1) then acc.map (fun e => if e.1 = v.1 then v else e) else acc ++ [v]
+
 def SVarBlock.erase (b : SVarBlock) : List (Cps × List Tok) :=
-  b.items.map (fun p => p.1.erase) ++ (b.last.map SVarDecl.erase).toList
+  (b.items.map (fun p => p.1.erase) ++ (b.last.map SVarDecl.erase).toList).foldl aVarsAdd []
 
 def SVar.erase : SVar → ARule
   | .comment b => .comment b
